@@ -75,14 +75,17 @@ func init() {
 			}
 			*l = append(*l, &Job{Pkg: "codec/format", Func: "ZZ_C16_Text", Args: []int64{p, 1}, Bounds: b})
 		}
+		for u := int64(0); u <= 3; u++ {
+			quick = append(quick, &Job{Pkg: "codec/format", Func: "ZZ_C16_TextRetained", Args: []int64{u}, Bounds: "two strings of 1..3 symbolic bytes through one codec chain (packet / length-field / delimiter / varint codec underneath); both strings compared after the second delivery"})
+		}
 		for _, c := range [][]int64{{0, 0}, {1, 0}, {0, 1}, {1, 1}} {
 			quick = append(quick, &Job{Pkg: "codec/format", Func: "ZZ_C16_JSON", Args: c, Bounds: "frame bytes symbolic (0..3 or 2049 bytes); encoding/json replaced by its contract stub"})
 		}
 		Specs["C16"] = &Spec{
 			Jobs:      jobsBy(quick, thorough),
-			MustReach: []string{"c16-text-done", "c16-json-decoded", "c16-json-rejected", "c16-json-encoded"},
+			MustReach: []string{"c16-text-done", "c16-retained-done", "c16-json-decoded", "c16-json-rejected", "c16-json-encoded"},
 			Bounds: map[string]string{
-				"quick":    "text codec: strings of 0..4 arbitrary bytes through 7 inbound paths ([]byte, *bytes.Reader, fragmenting reader, *bytes.Buffer, length-field / delimiter / varint codec underneath) and 2049-byte strings through 2 of them; JSON codec: wiring under the encoding/json contract stub for all four flag combinations",
+				"quick":    "text codec: strings of 0..4 arbitrary bytes through 7 inbound paths ([]byte, *bytes.Reader, fragmenting reader, *bytes.Buffer, length-field / delimiter / varint codec underneath) and 2049-byte strings through 2 of them; two strings of 1..3 bytes through one chain of packet / length-field / delimiter / varint codec + text codec, both looked at after the second delivery (a received string must not change with later traffic); JSON codec: wiring under the encoding/json contract stub for all four flag combinations",
 				"thorough": "2049-byte strings through 6 of the 7 paths (not through the byte-wise delimiter scan)",
 			},
 			Outside: "what encoding/json itself does with the bytes (big numbers, malformed input, nesting): assumed per the library's documented contract - the check decides only the repository's wiring (exact frame bytes reach the decoder, flags applied, errors raised, decoded object delivered unchanged, marshalled bytes forwarded unchanged)",
